@@ -9,6 +9,7 @@ import (
 	"go/types"
 	"math"
 	"regexp"
+	"sort"
 	"strings"
 
 	"golang.org/x/tools/go/ssa"
@@ -989,22 +990,44 @@ func aff4On(m *Model, r *RuleResult, valignName, packName, pre string) {
 						okM = isL && i0.isConst() && i0.k == 0 && len(mc.posts) > 0
 						whyM = "M starts at " + avalString(mc.init)
 						eid := -1
+						ename := ml.elem + ".W" // the variable that accumulates the extent: the cell layer.W itself, or a local stored into it
 						for _, p := range mc.posts {
 							s := avalString(p)
-							prefix := "max(c:" + mname + ", final(" + ml.elem + ".W)@L"
-							if !strings.HasPrefix(s, prefix) || !strings.HasSuffix(s, ")") {
+							pre0 := "max(c:" + mname + ", "
+							if !strings.HasPrefix(s, pre0) || !strings.HasSuffix(s, ")") {
 								okM = false
 								whyM = "M is updated as " + s + ", expected max(M, extent of the layer)"
 								continue
 							}
-							fmt.Sscanf(s[len(prefix):], "%d", &eid)
+							arg := s[len(pre0) : len(s)-1]
+							nm, lid2, isFinal := finalAtom(arg)
+							if !isFinal {
+								okM = false
+								whyM = "M is updated as " + s + ", expected max(M, extent of the layer)"
+								continue
+							}
+							if nm != ml.elem+".W" {
+								// a local accumulator: it must be what is stored into layer.W in the same iteration
+								same := false
+								for _, bp := range ml.paths {
+									if st, ok := storeTo(bp, ml.elem+".W"); ok && avalString(st.val) == arg {
+										same = true
+									}
+								}
+								if !same {
+									okM = false
+									whyM = "M is updated with " + arg + ", which is not the value stored into layer.W"
+									continue
+								}
+							}
+							ename, eid = nm, lid2
 						}
 						if okM && !(ml.full && strings.HasSuffix(ml.container, ".Layers")) {
 							okM, whyM = false, "M is not reduced over all layers"
 						}
 						if okM && eid >= 0 && eid < len(res.loops) {
 							el := res.loops[eid]
-							ec := el.carried[ml.elem+".W"]
+							ec := el.carried[ename]
 							okE := ec != nil && el.full && el.container == ml.elem+".Nodes"
 							whyE := "the extent is not accumulated over all of layer.Nodes"
 							if okE {
@@ -1019,7 +1042,7 @@ func aff4On(m *Model, r *RuleResult, valignName, packName, pre string) {
 										okE = false
 										continue
 									}
-									d := pl.add(linAtom("c:"+ml.elem+".W"), -1)
+									d := pl.add(linAtom("c:"+ename), -1)
 									switch {
 									case d.equal(linAtom(el.elem + ".W")):
 										nW++
@@ -1086,23 +1109,36 @@ func aff4On(m *Model, r *RuleResult, valignName, packName, pre string) {
 	lay := place.parent.elem
 	chk("backward-over-layer", "nodes are placed by a backward iteration over all of layer.Nodes", place.dir == -1 && place.full && place.container == lay+".Nodes",
 		fmt.Sprintf("iterates %s (dir %d, full %v)", place.container, place.dir, place.full))
+	// the cursor: the loop-carried variable whose updated value is what is stored into X (other carried cells of the loop,
+	// e.g. a running maximum of the heights, do not enter the stored value: it is a linear form over the cursor only)
 	var cname string
+	var c *affCarried
+	okStep := false
+	var cnames []string
 	for n := range place.carried {
-		cname = n
+		cnames = append(cnames, n)
 	}
-	c := place.carried[cname]
-	okStep := c != nil && len(place.carried) == 1 && len(c.posts) > 0
-	if okStep {
-		for i, p := range c.posts {
+	sort.Strings(cnames)
+	for _, n := range cnames {
+		cand := place.carried[n]
+		good := len(cand.posts) > 0
+		for i, p := range cand.posts {
 			pl, ok := p.(lin)
-			if !ok || !isStep(pl.add(linAtom("c:"+cname), -1), place.elem, -1) {
-				okStep = false
+			if !ok || !isStep(pl.add(linAtom("c:"+n), -1), place.elem, -1) {
+				good = false
 				continue
 			}
 			s, _ := storeTo(place.paths[i], place.elem+".X")
 			if sv, ok := s.val.(lin); !ok || !sv.equal(pl) {
-				okStep = false
+				good = false
 			}
+		}
+		if good || c == nil {
+			cname, c = n, cand
+		}
+		if good {
+			okStep = true
+			break
 		}
 	}
 	chk("step", "cursor moves left by n.W + NodeSpacing and X := the moved cursor", okStep, "cursor/X update not of that form")
